@@ -7,7 +7,7 @@ From Coq Require Import List NArith ZArith Bool QArith Qcanon Lia Permutation.
 From Okv Require Import Base.Maps Base.Dec Model.Amount Model.Book Model.Query Model.Render
      Model.PriceDb Model.Convert Model.OrderSpec
      Proofs.MapsSort Proofs.RenderProofs Proofs.BookA_Maps Proofs.BookA_Amount
-     Proofs.OrderMaps Proofs.OrderAmount Proofs.OrderBook Proofs.OrderReports.
+     Proofs.OrderMaps Proofs.OrderAmount Proofs.OrderBook Proofs.OrderReports Proofs.OrderPrice.
 Import ListNotations.
 Open Scope Qc_scope.
 
@@ -264,6 +264,38 @@ Section Reports.
     apply render_balance_equiv, HR.
   Qed.
 End Reports.
+
+(* ---- from equivalent book-keeping states to the converted report ---- *)
+(* the price repository is built from the recorded events of each state (equivalent, so the
+   repositories are rec_equiv) and the same price DB; heap orders and fuel are arbitrary but
+   sufficient; no commodity has two optimal chains of different rates *)
+Theorem balance_exchange_equiv s s' db fuel fuel' choose choose' cv st en :
+  st_equiv s s' ->
+  (forall c target date, c <> target -> tie_free (repository (s_events s) db) date target c) ->
+  (forall target date, exists t, price_table fuel choose (repository (s_events s) db) target date = PTDone t) ->
+  (forall target date, exists t, price_table fuel' choose' (repository (s_events s') db) target date = PTDone t) ->
+  conv_rel bal_equiv (balance_query fuel choose (repository (s_events s) db) s cv st en)
+                     (balance_query fuel' choose' (repository (s_events s') db) s' cv st en).
+Proof.
+  intros H Hfree HF HF'. apply balance_query_equiv; [|exact H].
+  intros c v target date. destruct (HF target date) as [t HT], (HF' target date) as [t' HT'].
+  apply (convert_single_determined _ _ date target c v choose choose' fuel fuel' t t'); auto.
+  apply repository_equiv, H.
+Qed.
+
+Corollary balance_exchange_stdout s s' db fuel fuel' choose choose' cv st en b b' :
+  st_equiv s s' ->
+  (forall c target date, c <> target -> tie_free (repository (s_events s) db) date target c) ->
+  (forall target date, exists t, price_table fuel choose (repository (s_events s) db) target date = PTDone t) ->
+  (forall target date, exists t, price_table fuel' choose' (repository (s_events s') db) target date = PTDone t) ->
+  balance_query fuel choose (repository (s_events s) db) s cv st en = COk b ->
+  balance_query fuel' choose' (repository (s_events s') db) s' cv st en = COk b' ->
+  render_balance b = render_balance b'.
+Proof.
+  intros H Hfree HF HF' E E'.
+  pose proof (balance_exchange_equiv s s' db fuel fuel' choose choose' cv st en H Hfree HF HF') as HR.
+  rewrite E, E' in HR. apply render_balance_equiv, HR.
+Qed.
 
 (* ---- iterating in key order (what 170c38c does for an amount, and what would repair F21) ---- *)
 Definition canon_balance (b : balance) : balance := sort_keys (map (fun p => (fst p, sort_keys (snd p))) b).
